@@ -194,7 +194,7 @@ func (m *Module) deepCopyInPlace(oldModule *Module, oldEnv, newEnv *GlobalEnviro
 	m.methods = MethodsDeepCopyEnv(oldModule.methods, oldEnv, newEnv)
 	m.subtypes = ConstantsDeepCopyEnv(oldModule.subtypes, oldEnv, newEnv)
 	m.constants = ConstantsDeepCopyEnv(oldModule.constants, oldEnv, newEnv)
-	if m.parent != nil {
+	if oldModule.parent != nil {
 		m.parent = DeepCopyEnv(oldModule.parent, oldEnv, newEnv).(Namespace)
 	}
 }
